@@ -15,6 +15,17 @@ import (
 	"verifharness/prog"
 )
 
+// Bounds on what is handed to TLC per event. The largest generated events (a typed slice of 256 elements inside
+// nested containers) have a few hundred heads / tokens; beyond these bounds the event is marked malformed (X).
+const maxHeads, maxTokens = 2000, 6000
+
+func capTokens(t []string) []string {
+	if len(t) > maxTokens {
+		return append(t[:maxTokens:maxTokens], "X")
+	}
+	return t
+}
+
 type outLine struct {
 	A      string          `json:"a"`
 	ID     string          `json:"id"`
@@ -58,6 +69,7 @@ func main() {
 	sc := bufio.NewScanner(f)
 	sc.Buffer(make([]byte, 1<<20), 1<<28)
 	n := 0
+	var allOut [][]byte
 	w.WriteString(`{"a":"Reset"}` + "\n")
 	for sc.Scan() {
 		if len(bytes.TrimSpace(sc.Bytes())) == 0 {
@@ -73,7 +85,11 @@ func main() {
 			Tokens: []string{}, Keys: []prog.KeyAt{}, CTok: []string{}, CKeys: []prog.KeyAt{}}
 		if len(res.Writes) > 0 && binaryBuild {
 			out := res.Writes[0]
+			allOut = append(allOut, out)
 			ol.Heads = prog.ScanHeads(out)
+			if len(ol.Heads) > maxHeads { // no generated program comes near; garbage (a mis-sized string) can
+				ol.Heads = append(ol.Heads[:maxHeads:maxHeads], prog.Head{K: "X", N: 0})
+			}
 			it, n, err := prog.DecodeItem(out, 0)
 			if err != nil {
 				ol.ItemErr = err.Error()
@@ -111,10 +127,34 @@ func main() {
 				ol.Out = base64.StdEncoding.EncodeToString(out)
 			}
 		}
+		ol.Tokens, ol.CTok, ol.DTok = capTokens(ol.Tokens), capTokens(ol.CTok), capTokens(ol.DTok)
 		b, _ := json.Marshal(ol)
 		w.Write(b)
 		w.WriteByte('\n')
 		n++
+	}
+	if binaryBuild && len(allOut) > 0 {
+		// the whole run as ONE binary log stream, decoded in one call: line i must be what event i decodes to alone
+		var stream []byte
+		for _, o := range allOut {
+			stream = append(stream, o...)
+		}
+		dec, derr, dpan := decodeMany(stream)
+		ls := bytes.Split(bytes.TrimSuffix(dec, []byte("\n")), []byte("\n"))
+		mism := 0
+		first := -1
+		for i := range allOut {
+			alone, _, _ := decodeMany(allOut[i])
+			if i >= len(ls) || !bytes.Equal(bytes.TrimSuffix(alone, []byte("\n")), ls[i]) {
+				mism++
+				if first < 0 {
+					first = i
+				}
+			}
+		}
+		b, _ := json.Marshal(map[string]interface{}{"a": "Stream", "events": len(allOut), "bytes": len(stream), "lines": len(ls), "mismatch": mism, "first": first, "decerr": derr, "decpanic": dpan})
+		w.Write(b)
+		w.WriteByte('\n')
 	}
 	w.Flush()
 	of.Close()
